@@ -173,7 +173,7 @@ def _doc_default(p, emit_default_doc):
     return doc
 
 
-def render_class(desc, name="Config", default_doc=False, indent="", quote_code=False):
+def render_class(desc, name="Config", default_doc=False, indent="", quote_code=False, plain=False):
     """quote_code: write code defaults the way doctrans itself does in classes: as a string of back-tick quoted source"""
     lines = ['class %s(object):' % name, '    """', "    " + desc["doc"], ""]
     for p in desc["params"]:
@@ -187,6 +187,9 @@ def render_class(desc, name="Config", default_doc=False, indent="", quote_code=F
         typ = p["typ"] or "object"
         if p["default"] is None:
             lines.append("    %s: %s" % (p["name"], typ))
+        elif plain and typ in ("int", "float", "bool", "str") and p["default"].get("v") is not None:
+            # an attribute written without annotation (`epochs = 5`): its type is what the value says
+            lines.append("    %s = %s" % (p["name"], lit(p["default"])))
         else:
             lines.append("    %s: %s = %s" % (p["name"], typ, lit(p["default"])))
     if r:
